@@ -14,6 +14,11 @@ from the property statement only:
     '$NetBSD', re-terminate every kept line with LF (so a kept final
     unterminated line gains a newline).
 
+Besides the short inputs (every length 0-130, block and buffer boundaries,
+systematic and random patch texts) the non-mini tiers hold long-line texts
+(`p_long`: one line longer than 2^9 .. 2^20 bytes with the marker at, around
+and far beyond that offset of the line) and many-line texts (`p_many`).
+
 File format (line oriented, space separated, trivial to parse without JSON):
 
     # pvh-digest-vectors v1 seed=<seed> tier=<tier> inputs=<n>
@@ -136,6 +141,11 @@ CONTENT = {"rand": c_rand, "zero": c_zero, "ff": c_ff, "ascii": c_ascii, "utf8":
 
 BOUNDARY = [0, 1, 55, 56, 63, 64, 65, 111, 112, 119, 127, 128, 129]
 BIG = [255, 256, 257, 4095, 4096, 4097, 8191, 8192, 8193]
+# further round read counts / buffer sizes (1-byte schedules make len reads)
+ROUND = [511, 512, 513, 1023, 1024, 1025, 2047, 2048, 2049, 16383, 16384, 16385,
+         32767, 32768, 32769, 65535, 65536]
+# around a 128 KiB / 256 KiB read buffer
+HUGE = [131071, 131072, 131073, 262145]
 
 # ---------------------------------------------------------------------------
 # patch texts
@@ -292,6 +302,179 @@ def p_straddle(r, at, variant):
 
 
 # ---------------------------------------------------------------------------
+# very long lines
+# ---------------------------------------------------------------------------
+
+def fill(r, n):
+    """n printable bytes without LF and without '$' (so no marker, no near miss)."""
+    return bytes(0x25 + b % 90 for b in r.bytes(n))
+
+
+PREFIXES = [b"", b"--- a/file\n+++ b/file\n@@ -1 +1 @@\n", b"x\n", b"\n", b"keep me\r\n# $NetBSD$\n\n"]
+
+LONG_SHAPES = ["late", "end", "end-unterminated", "unterminated-straddle", "unterminated-nomarker",
+               "start", "middle", "nomarker-then-markers", "exact", "exact-marker-end", "double-late",
+               "nearmiss", "two-long-a", "two-long-b", "both-sides", "crlf-late"]
+
+
+def p_long(r, b, shape, k=0, pre=0, mode="line"):
+    """A patch text with one (or two) lines longer than `b` bytes.  `b` is the
+    boundary under attack: a piece / buffer size an implementation might
+    process a long line in.  shape "straddle"/"double-straddle" put the marker
+    so that it starts `k` bytes before offset b (2b) - k=0: first byte of the
+    next piece, k=1..6: split k|7-k, k=7: last seven bytes of this piece.
+    mode "line" measures offsets from the start of the long line, mode "file"
+    from the start of the input (they differ when a prefix of short lines
+    `PREFIXES[pre]` is present)."""
+    head = PREFIXES[pre % len(PREFIXES)]
+    base = len(head) if mode == "file" else 0      # bytes of the boundary already used up
+    x = r.range(9, 300) + (b // 16 if b >= 4096 else 0)
+    t = r.range(0, 200)
+    z = r.range(1, 99)
+    if shape == "straddle":
+        body = fill(r, b - k - base) + MARK + fill(r, t) + b"\nkept\n"
+    elif shape == "double-straddle":
+        body = fill(r, 2 * b - k - base) + MARK + fill(r, t) + b"\nkept\n"
+    elif shape == "late":            # marker well after the boundary
+        body = fill(r, b + x) + MARK + fill(r, t) + b"\nkept line\n"
+    elif shape == "double-late":     # ... and after twice the boundary
+        body = fill(r, 2 * b + x) + MARK + b": y $" + fill(r, t) + b"\nkept line\n"
+    elif shape == "end":             # marker is the very end of a long terminated line
+        body = fill(r, b + x) + MARK + b"\nkept\n"
+    elif shape == "end-unterminated":
+        body = b"first\n" + fill(r, b + x) + MARK
+    elif shape == "unterminated-straddle":
+        body = b"first\n" + fill(r, b - (k or 3)) + MARK + fill(r, t)
+    elif shape == "unterminated-nomarker":   # kept, gains a newline
+        body = b"first\n$NetBSD$\n" + fill(r, b + x)
+    elif shape == "start":           # the skip must last for the whole line
+        body = MARK + fill(r, b + x) + b"\nkept\n" + fill(r, z) + b"\n"
+    elif shape == "middle":
+        body = fill(r, b // 2) + MARK + fill(r, b) + b"\nkept\n"
+    elif shape == "nomarker-then-markers":
+        body = fill(r, b + x) + b"\n$NetBSD$\nkept\n# $NetBSD: x $\n" + fill(r, z) + b"\nend"
+    elif shape == "exact":           # lines of exactly b-1, b, b+1 bytes (LF excluded)
+        body = (fill(r, b - 1) + b"\n$NetBSD$\n" + fill(r, b) + b"\nk\n" + fill(r, b + 1)
+                + b"\n$NetBSD\nlast")
+    elif shape == "exact-marker-end":  # marker ends exactly at b / at b with the LF / one later
+        body = (fill(r, b - 7) + MARK + b"\nkept 1\n" + fill(r, b - 8) + MARK + b"\nkept 2\n"
+                + fill(r, b - 6) + MARK + b"\nkept 3\n")
+    elif shape == "nearmiss":        # '$Net' | 'BSd' across the boundary: kept
+        body = fill(r, b - 4 - base) + b"$NetBSd" + fill(r, t) + b"\nkept\n$NetBS\n"
+    elif shape == "two-long-a":      # long marker line, then a long plain line (state is reset)
+        body = fill(r, b + x) + MARK + fill(r, t) + b"\n" + fill(r, b + z) + b"\nend\n"
+    elif shape == "two-long-b":      # long plain line, then a long marker line
+        body = fill(r, b + z) + b"\n" + fill(r, b + x) + MARK + fill(r, t) + b"\nend\n"
+    elif shape == "both-sides":      # marker early and again late in the same line
+        body = fill(r, z) + MARK + fill(r, b + x) + MARK + fill(r, t) + b"\nkept\n"
+    elif shape == "crlf-late":
+        body = b"a\r\n" + fill(r, b + x) + MARK + fill(r, t) + b"\r\nkept\r\n"
+    else:
+        raise SystemExit("digest_vectors.py: unknown long-line shape %r" % shape)
+    return head + body
+
+
+def p_many(r, nlines, style):
+    """A patch of `nlines` short lines whose marker lines sit at round line
+    numbers (2^k - 1, 2^k, 2^k + 1 for k >= 7; 1000, 10000, ...), on the last
+    line and - style 1 - also early, so that a filter that stops working (or
+    starts misbehaving) after a number of lines or bytes is seen."""
+    special = set()
+    k = 7
+    while (1 << k) - 1 <= nlines:
+        special.update(((1 << k) - 1, 1 << k, (1 << k) + 1))
+        k += 1
+    special.update((1000, 10000, 50000, 100000, nlines - 1, nlines - 2))
+    if style == 1:
+        special.update((0, 3, 64))
+    short = [b"", b"a", b"+", b"-x", b" ctx", b"$", b"$NetBS", b"}", b"+\t}", b"@@ -1 +1 @@"]
+    picks = r.bytes(nlines)
+    out = bytearray()
+    for i in range(nlines):
+        if i in special:
+            out += [b"$NetBSD$", b"# $NetBSD: f,v 1.%d $" % (i % 100), b"+ $NetBSD"][i % 3]
+        else:
+            out += short[picks[i] % len(short)]
+        if i < nlines - 1 or style != 2:
+            out += b"\n"
+    return bytes(out)
+
+
+def long_lines(r, seed, tier):
+    """The (class, text) list of long-line patch inputs of a tier."""
+    out = []
+
+    def add(*a, **kw):
+        out.append(("patch-long", p_long(r, *a, **kw)))
+
+    if tier == "small":
+        # cheap boundaries densely, one modest 64 KiB case (debug build / ASan)
+        for b in (512, 1024, 4096, 8192):
+            for k in range(8):
+                add(b, "straddle", k=k, pre=(k + seed) % 2 * (1 + k % 4), mode=["line", "file"][k % 2])
+            add(b, LONG_SHAPES[(b // 512 + seed) % len(LONG_SHAPES)])
+        add(65536, "late", pre=seed % 3)
+        out.append(("patch-many", p_many(r, 1100, seed % 3)))
+        return out
+
+    thorough = tier == "thorough"
+    small_b = [512, 1024, 2048, 4096, 8192, 16384, 32768]
+    for b in small_b:
+        for k in range(8):
+            add(b, "straddle", k=k)
+        for k in range(1, 7):
+            add(b, "straddle", k=k, pre=1 + (k + seed) % 4, mode="line")
+            add(b, "straddle", k=k, pre=1 + (k + seed + 1) % 4, mode="file")
+        for k in range(1, 7):
+            if thorough or (k + seed + b // 512) % 3 == 0:
+                add(b, "double-straddle", k=k, pre=(k + seed) % 5)
+        for i, sh in enumerate(LONG_SHAPES):
+            add(b, sh, k=1 + (i + seed) % 6, pre=(i + seed) % 5 if i % 2 else 0)
+    # 64 KiB: everything once
+    b = 65536
+    for k in range(8):
+        add(b, "straddle", k=k)
+    for k in range(1, 7):
+        if thorough or (k + seed) % 2 == 0:
+            add(b, "straddle", k=k, pre=1 + (k + seed) % 4, mode="line")
+            add(b, "straddle", k=k, pre=1 + (k + seed + 1) % 4, mode="file")
+    for k in range(1, 7):
+        add(b, "double-straddle", k=k, pre=(k + seed) % 5 if k % 2 else 0)
+    for i, sh in enumerate(LONG_SHAPES):
+        add(b, sh, k=1 + (i + seed) % 6, pre=(i + seed) % 5 if i % 2 else 0)
+    # 128 KiB
+    b = 131072
+    for k in range(8):
+        add(b, "straddle", k=k, pre=(k + seed) % 5 if k % 2 else 0)
+    for sh in ("late", "end", "end-unterminated", "unterminated-nomarker", "start",
+               "nomarker-then-markers", "exact", "exact-marker-end", "two-long-b"):
+        add(b, sh, pre=seed % 5)
+    # decimal round sizes and 65535-style limits are straddled by the above
+    # (k = 2..7 around 2^n) or get their own straddles here
+    for b in (1000, 10000, 100000):
+        for k in range(1, 7):
+            if thorough or (k + seed) % 3 == 0:
+                add(b, "straddle", k=k, pre=(k + seed) % 5)
+        add(b, "late")
+    # 256 KiB, 512 KiB, 1 MiB: a small number of very long lines
+    for b in (262144, 524288, 1048576):
+        ks = range(8) if thorough else [1 + (seed + b // 262144) % 6]
+        for k in ks:
+            add(b, "straddle", k=k, pre=(k + seed) % 5)
+        add(b, "late", pre=(seed + 1) % 5)
+        if thorough:
+            add(b, "end-unterminated")
+            add(b, "nomarker-then-markers")
+            add(b, "start")
+    # very many short lines
+    for i, n in enumerate([300, 1100, 4200, 9000, 33000, 70000] + ([140000, 300000] if thorough else [])):
+        out.append(("patch-many", p_many(r, n, (i + seed) % 3)))
+        if thorough:
+            out.append(("patch-many", p_many(r, n + r.range(1, 90), (i + seed + 1) % 3)))
+    return out
+
+
+# ---------------------------------------------------------------------------
 # the per-tier input lists
 # ---------------------------------------------------------------------------
 
@@ -335,6 +518,9 @@ def inputs_for(seed, tier):
         add("patch-big", p_straddle(r, 8192, 1))
         for _ in range(10):
             add("patch-rand", p_text(r, 12))
+        for i, n in enumerate([1023, 1024, 1025, 16384]):
+            content(["rand", "ascii", "utf8"][(i + seed) % 3], n)
+        out.extend(long_lines(r, seed, tier))
         return out
 
     if tier == "quick":
@@ -359,6 +545,11 @@ def inputs_for(seed, tier):
         add("patch-big", p_straddle(r, 16384, 1))
         for _ in range(40):
             add("patch-rand", p_text(r, 14))
+        for i, n in enumerate(ROUND):
+            content(["rand", "ascii", "utf8"][(i + seed) % 3], n)
+        for i, n in enumerate(HUGE):
+            content(["rand", "ascii"][(i + seed) % 2], n)
+        out.extend(long_lines(r, seed, tier))
         return out
 
     if tier == "thorough":
@@ -389,6 +580,11 @@ def inputs_for(seed, tier):
             add("patch-rand", p_text(r, r.pick([4, 10, 10, 25, 60])))
         for _ in range(20):
             add("patch-rand", p_text(r, 400))
+        for n in ROUND + HUGE:
+            for cls in ("rand", "ascii", "utf8"):
+                content(cls, n)
+        content("rand", 1048577)
+        out.extend(long_lines(r, seed, tier))
         return out
 
     raise SystemExit("digest_vectors.py: unknown tier %r" % tier)
@@ -436,6 +632,8 @@ def selftest():
     assert patch_filter(b"\n\n") == b"\n\n"
     assert patch_filter(b"$Net\nBSD\n") == b"$Net\nBSD\n"
     assert patch_filter(b"x\r$NetBSD$\ry\nz\n") == b"z\n"
+    assert patch_filter(b"q" * 70000 + b"$NetBSD" + b"r" * 9 + b"\nk") == b"k\n"
+    assert patch_filter(b"q" * 65533 + b"$NetBSd\n" + b"$NetBSD" * 20000) == b"q" * 65533 + b"$NetBSd\n"
 
 
 def main(argv):
